@@ -498,6 +498,20 @@ def renameRegexp (names : List String) (b : Bag) : Bag × List (String × String
   let rows := renameList b.rows names
   ({ b with rows := rows, index := rebuildIndex rows }, renameMap (b.rows.map (·.name)) names [])
 
+/-! ### `Replace` with a regular expression -/
+
+/-- row `i` takes the `i`-th of the new sequences (the values of `r.ReplaceAllString(sequence, new)`, computed outside
+the model: Go's regexp is external); a row without a value keeps its sequence -/
+def regexSeqs (ps : List (String × Seq)) (seqs : List Seq) : List (String × Seq) :=
+  ps.zipIdx.map fun (p, i) => (p.1, seqs.getD i p.2)
+
+/-- `Replace(old, new, true)` once the regular expression compiled, with the new sequences supplied: every row's
+sequence is overwritten through its pointer (ids, names, index and cached length untouched); for an alignment an error
+is then returned if some row no longer has the cached length (the rows stay as written) -/
+def replaceRegexBag (seqs : List Seq) (b : Bag) : Bag × Bool :=
+  let b' := { b with rows := withSeqs b.rows (regexSeqs (pairs b) seqs) }
+  (b', b.isAlign && b'.rows.any fun r => (r.seq.length : Int) != b'.length)
+
 /-! ### `SetAlphabet` -/
 
 /-- the decision of `SetAlphabet(alphabet)` given the alphabet `DetectAlphabet()` found: the alphabet to set, or
